@@ -8,12 +8,12 @@ from mc import gpusim, refmodel
 
 PROFILES_QUICK = [
     dict(host_dur=2, lat=1, kdur=[3, 1], gap=0),
-    dict(host_dur=1, lat=0, kdur=[0, 3], gap=0),
+    dict(host_dur=1, lat=0, kdur=[3, 0, 1], gap=0),   # a zero-length kernel and its successor start when the long one ends
     dict(host_dur=1, lat=3, kdur=[3], gap=1),
     dict(host_dur=2, lat=0, kdur=[1], gap=0, open_cost=0),
 ]
 PROFILES_MORE = [
-    dict(host_dur=1, lat=1, kdur=[0], gap=0),
+    dict(host_dur=1, lat=0, kdur=[0, 3], gap=0),
     dict(host_dur=2, lat=3, kdur=[1, 3], gap=1),
     dict(host_dur=1, lat=0, kdur=[3], gap=0, open_cost=0),
     dict(host_dur=2, lat=1, kdur=[0, 1, 3], gap=0),
@@ -50,6 +50,9 @@ def worlds(tier: str, stats: Dict[str, Any], subset: Optional[str] = None) -> It
                 # Kineto does not write events in time order: same trace, device records last and in reverse order
                 stats["transitions"] += 1
                 yield dict(program=[list(a) for a in p], profile=prof, steps=False, flag=(i + j + 1) % 2, file_order="device-reversed")
+            if 0 in prof["kdur"] and (i % 2 == 1):
+                stats["transitions"] += 1
+                yield dict(program=[list(a) for a in p], profile=dict(prof, corr_order="descending"), steps=False, flag=i % 2)
             if j == 0 and (i % 3 == 1):
                 # activity names whose shortened form is empty or a token that CSV readers take for "missing"
                 stats["transitions"] += 1
